@@ -2,6 +2,8 @@
 run a trace validation and turn verdicts into violations, binding self-tests."""
 import os
 import shutil
+import signal
+import threading
 
 from . import tlc, tlaval, trace
 from .tlc import MachineryError
@@ -26,13 +28,49 @@ class Raised:
         return hash(self.text)
 
 
+class CallTimeout(BaseException):
+    """A call into the code under test did not return within CALL_LIMIT_S."""
+
+
+# Calls into the code under test take milliseconds to a few seconds; one that
+# has not returned after this many seconds (generous enough for a loaded
+# machine) is reported as "does not return" instead of hanging the check.
+CALL_LIMIT_S = float(os.environ.get("VERIF_CALL_LIMIT_S", "600"))
+_depth = [0]
+
+
+def _expired(signum, frame):
+    raise CallTimeout()
+
+
 def safe(fn, *args, **kwargs):
     """Call into the code under test; an exception becomes a Raised value (it is
-    a finding about the code, never a failure of the machinery)."""
+    a finding about the code, never a failure of the machinery), and so does a
+    call that does not return within CALL_LIMIT_S."""
+    armed = False
+    if _depth[0] == 0 and threading.current_thread() is threading.main_thread():
+        try:
+            signal.signal(signal.SIGALRM, _expired)
+            signal.setitimer(signal.ITIMER_REAL, CALL_LIMIT_S)
+            armed = True
+        except (ValueError, OSError):
+            armed = False
+    _depth[0] += 1
     try:
         return fn(*args, **kwargs)
+    except CallTimeout:
+        if not armed:
+            raise
+        err = TimeoutError(f"no result after {CALL_LIMIT_S:.0f} s")
+        return Raised(err)
+    except RecursionError as err:
+        return Raised(err)
     except Exception as err:  # pylint: disable=broad-except
         return Raised(err)
+    finally:
+        _depth[0] -= 1
+        if armed:
+            signal.setitimer(signal.ITIMER_REAL, 0)
 
 
 def explore(ctx, module, name, spec="Spec", constants=None, invariants=(), properties=(),
